@@ -21,7 +21,9 @@ OFSs  == { <<MINUS>>, <<>> } \cup (IF Rich THEN { <<SP>>, <<COMMA, SP>> } ELSE {
 \* numeric spellings: n is the integer AWK truncates the source text to
 IdxSpell == { [n |-> 0 - 1, src |-> "-1"], [n |-> 0, src |-> "0"], [n |-> 1, src |-> "1"], [n |-> 2, src |-> "2"],
               [n |-> 3, src |-> "3"], [n |-> 5, src |-> "NF+2"], [n |-> 2, src |-> "2.7"], [n |-> 0 - 4, src |-> "-4"],
-              [n |-> MaxField + 1, src |-> "1000001"] }
+              [n |-> MaxField + 1, src |-> "1000001"],
+              \* beyond every integer type: still "beyond the limit", never a negative index
+              [n |-> MaxField + 1, src |-> "2^64"], [n |-> MaxField + 1, src |-> "-log(0)"] }
             \cup (IF Rich THEN { [n |-> 0 - 2, src |-> "-2"], [n |-> 1, src |-> "\"1x\""], [n |-> 0, src |-> "-0.5"],
                                  [n |-> 1, src |-> "1.5"] } ELSE {})
 NFSpell  == { [n |-> 0 - 1, src |-> "-1"], [n |-> 0, src |-> "0"], [n |-> 1, src |-> "1"], [n |-> 2, src |-> "2.7"],
